@@ -71,7 +71,8 @@ Inductive pval :=
 | VEnum (e : expr) (dict : list (Z * Z))
 | VRel (e : expr) (mn mx : option Z) (from_end : bool) (bounds : option (Z * Z))
 | VAddr (e : expr) (bounds : option (Z * Z)) (slice msb : bool)
-| VComposite (subs : list (Z * Z)).              (* (value, size) of numeric sub-parts *)
+| VComposite (subs : list (Z * Z))               (* (value, size) of numeric sub-parts *)
+| VCompositeE (outer : Z * Z) (e : expr) (mx mn : Z) (isz : Z).   (* register code followed by a range-checked expression *)
 
 Record ipart := { ip_val : pval; ip_size : Z; ip_align : bool; ip_endian : endian }.
 
@@ -248,6 +249,9 @@ Definition part_value (ev : expr -> result Z) (addr size : Z) (p : ipart) : resu
         then Ok (Z.land v (2 ^ ip_size p - 1)) else Rejected
       else Ok v
   | VComposite subs => composite_value subs (ip_endian p)
+  | VCompositeE outer e mx mn isz =>
+      do v <- ev e;
+      if (v <=? mx) && (mn <=? v) then composite_value [outer; (v, isz)] (ip_endian p) else Rejected
   end.
 
 Definition instr_size (ps : list ipart) : Z :=
